@@ -100,7 +100,7 @@ def _file_ids_deterministic(F, f):
         for q, g in F.fns.items():
             if "hir" not in g or not (q.startswith(ty + "::") or q.startswith("<" + ty + " as ")):
                 continue
-            if any(c.get("k") == "Call" and (callee_of(c) or "").endswith("Uuid::new_v4") for c in walk(g["hir"]["value"], pats=False)):
+            if any(c.get("k") == "Call" and (callee_of(c) or "").endswith("new_v4") for c in walk(g["hir"]["value"], pats=False)):
                 return None
     return f"none of the file readers ({', '.join(sorted(names))}) makes file ids with Uuid::new_v4 (they are numbered in import order)"
 
